@@ -53,10 +53,20 @@ SPECS = {
             'fault_kinds': ['prov_raise', 'prov_false', 'prov_stale', 'bcast_lost_reply', 'db_commit_fail', 'crash',
                             'multi_handle', 'drop_handle', 'gc_collect'],
             'tiers': {
-                'quick': {'runs': 400, 'budget_s': 110, 'run_timeout_s': 90, 'shrink_budget_s': 70,
+                'quick': {'runs': 320, 'budget_s': 90, 'run_timeout_s': 90, 'shrink_budget_s': 70,
                           'params': {'focus': 'C08'}},
-                'thorough': {'runs': 12000, 'budget_s': 1500, 'run_timeout_s': 180, 'shrink_budget_s': 240,
+                'thorough': {'runs': 12000, 'budget_s': 1200, 'run_timeout_s': 180, 'shrink_budget_s': 240,
                              'params': {'focus': 'C08'}},
+            },
+        }, {
+            'name': 'crashsweep',
+            'module': 'scenarios.c08_ledger',
+            'fault_kinds': ['crash'],
+            'tiers': {
+                'quick': {'runs': 40, 'budget_s': 35, 'run_timeout_s': 120, 'shrink_budget_s': 40,
+                          'params': {'focus': 'C08', 'arm': 'crashsweep'}},
+                'thorough': {'runs': 3000, 'budget_s': 600, 'run_timeout_s': 240, 'shrink_budget_s': 120,
+                             'params': {'focus': 'C08', 'arm': 'crashsweep'}},
             },
         }],
         'rule': ('one run = one seeded history of 10-36 wallet operations (keys, fund, utxos_update / transactions_update / scan / '
@@ -64,7 +74,10 @@ SPECS = {
                  'unsent transaction, import as raw/dict/object, delete, remove_unconfirmed, bumpfee, reopen / second handle / '
                  'drop / gc, mine, clock) on 1-2 wallets (HD, single-key, m-of-n multisig; segwit / p2sh-segwit / legacy; one or two '
                  'database files) with provider, commit-failure and crash faults; ledger invariants checked on the live handle after '
-                 'most operations and on a freshly opened handle periodically and at the end. Non-trivial: >= 5 operations and >= 1 '
+                 'most operations and on a freshly opened handle periodically and at the end. Arm crashsweep: a fault-free history, '
+                 'then ONE operation (send / sweep / update / delete / bumpfee / new_key / utxo_add) re-executed from a snapshot once '
+                 'per crash point (before and after every wallet-database commit), dirty restart and full check on a fresh handle '
+                 'each time - the crash points of that operation are enumerated completely. Non-trivial: >= 5 operations and >= 1 '
                  'successful library call; distinct = distinct event-log digests.'),
         'state_measure': 'distinct (wallet kind, witness type, #utxos bucket, #handles, #acknowledged-spent bucket, last operation kind)',
         'components': {'real': WALLET_REAL, 'stub': WALLET_STUB},
